@@ -2,6 +2,7 @@ package e2
 
 import (
 	"fmt"
+	"math"
 	"reflect"
 	"regexp"
 	"sort"
@@ -22,8 +23,9 @@ type Call struct {
 	Tag   string `json:"tag,omitempty"`
 	Rule  int    `json:"r,omitempty"`
 	Fn    int    `json:"f,omitempty"`
-	Shape int    `json:"s,omitempty"` // 0 pointer, 1 value, 2 slice of pointers, 3 map of pointers, 4 array of values, 5 typed nil pointer, 6 nil
-	U     string `json:"u,omitempty"` // histories with global registrations: the suffix that makes this history's rule names unique in the process
+	Shape int    `json:"s,omitempty"`       // 0 pointer, 1 value, 2 slice of pointers, 3 map of pointers, 4 array of values, 5 typed nil pointer, 6 nil
+	Keep  bool   `json:"keep_rm,omitempty"` // the rule map is ONE object per client, edited in place from call to call (as a package-level RM would be), not built afresh
+	U     string `json:"u,omitempty"`       // histories with global registrations: the suffix that makes this history's rule names unique in the process
 }
 
 const (
@@ -53,9 +55,10 @@ const (
 )
 
 const (
-	EEscape  = "StrEscape"
-	ETimeFmt = "GetTimeFmt"
-	EParseKV = "ParseValidNameKV"
+	EDumpJson = "GetDumpStructStrForJson"
+	EEscape   = "StrEscape"
+	ETimeFmt  = "GetTimeFmt"
+	EParseKV  = "ParseValidNameKV"
 )
 
 var escapeInputs = []string{"", "plain", "it's \"quoted\"\n", strings.Repeat("a'b\\", 30), strings.Repeat("long \"text\" ", 12), strings.Repeat("x", 129), strings.Repeat("'y'", 90), "tab\tand\x00nul\x1a"}
@@ -278,6 +281,14 @@ func (c Call) build() *args {
 	case c.Entry == EVarG:
 		a.src = varVals[c.Val%len(varVals)]()
 		a.rules = []string{gName(c.U, c.Rule)}
+	case c.Entry == EDumpJson:
+		if c.Shape == 1 {
+			a.src = mkOdd(c.Val) // a value encoding/json cannot encode
+		} else {
+			x := mkValue(c.Type, c.Val)
+			trimMaps(x)
+			a.src = x
+		}
 	case c.IsStruct() || c.Entry == EDump:
 		mkv := func(i int) interface{} {
 			x := mkValue(c.Type, i)
@@ -332,6 +343,9 @@ func (c Call) build() *args {
 			a.src = arr.Interface()
 		}
 		a.rule = mkRule(c.Rule)
+		if c.Keep && a.rule != nil && c.Rule != 7 {
+			a.rule = keptRule(a.rule)
+		}
 		if c.Rule == 7 {
 			a.ruleArgs = multiSetRules()
 			a.rule = valid.NewRule().Set("Name,Code", a.ruleArgs...)
@@ -560,6 +574,14 @@ func (c Call) Exec() (res Result) {
 		l := valid.ValidNamesSplit(a.str)
 		res.Handed = append(res.Handed, l...)
 		res.Canon = "list:" + strings.Join(l, "\x1f")
+		// the slice belongs to the caller, who may edit it (normalise, sort, ...): nobody else may ever see that
+		for i := range l {
+			l[i] = "edited-by-the-caller"
+		}
+	case EDumpJson:
+		s := valid.GetDumpStructStrForJson(a.src)
+		res.Handed = append(res.Handed, s)
+		res.Canon = "str:" + s
 	case EEscape:
 		s := valid.StrEscape(a.str)
 		res.Handed = append(res.Handed, s)
@@ -583,6 +605,11 @@ func (c Call) Exec() (res Result) {
 	// inputs must be left as they were: compare with a twin built from the same descriptor
 	b := c.build()
 	switch {
+	case c.Entry == EDumpJson && c.Shape == 1:
+		// func / chan / NaN fields: two values built alike are never deeply equal; only the ordinary field is compared
+		if a.src.(*Odd).Name != b.src.(*Odd).Name {
+			res.Mutated = "the value passed in was modified"
+		}
 	case !reflect.DeepEqual(a.src, b.src):
 		res.Mutated = fmt.Sprintf("the value passed in was modified: %s", valid.GetDumpStructStrForJson(a.src))
 	case !reflect.DeepEqual(a.rule, b.rule):
@@ -619,6 +646,48 @@ func sameNest(a, b map[interface{}]valid.RM) bool {
 		}
 	}
 	return true
+}
+
+// keptRules: one rule-map object per simulated client (and one for direct mode), brought to the wanted contents in place.
+var keptRules [64]valid.RM
+
+func keptRule(want valid.RM) valid.RM {
+	i := (simsync.TaskID() + 1) % len(keptRules)
+	rm := keptRules[i]
+	if rm == nil {
+		rm = valid.NewRule()
+		keptRules[i] = rm
+	}
+	for k := range rm {
+		if _, ok := want[k]; !ok {
+			delete(rm, k)
+		}
+	}
+	for k, v := range want {
+		rm[k] = v
+	}
+	return rm
+}
+
+// Odd holds what encoding/json cannot encode.
+type Odd struct {
+	Name string
+	F    func()
+	C    chan int
+	X    float64
+}
+
+func mkOdd(v int) interface{} {
+	o := &Odd{Name: strN(v % 4)}
+	switch v % 3 {
+	case 0:
+		o.F = func() {}
+	case 1:
+		o.C = make(chan int)
+	default:
+		o.X = math.NaN()
+	}
+	return o
 }
 
 // SameResult compares two canonical results; unordered ones as multisets of clauses.
